@@ -129,6 +129,16 @@ impl Lintable for FunctionBody
 		{
 			statement.lint(linter);
 		}
+		self.return_value.lint(linter);
+	}
+}
+
+impl Lintable for Comparison
+{
+	fn lint(&self, linter: &mut Linter)
+	{
+		self.left.lint(linter);
+		self.right.lint(linter);
 	}
 }
 
@@ -216,6 +226,8 @@ impl Lintable for Statement
 			} =>
 			{
 				linter.is_first_statement_of_branch = None;
+
+				condition.lint(linter);
 
 				linter.is_naked_branch = Some(NakedBranch {
 					location_of_condition: condition.location.clone(),
